@@ -4,6 +4,7 @@ import RtcModel.IceCand
 import RtcModel.Turn
 import RtcModel.StunRfc
 import RtcModel.IceUri
+import RtcModel.IcePairs
 import RtcModel.Base.C16Crypto
 import RtcModel.Drv.Util
 namespace RtcModel.Drv.C16
@@ -247,9 +248,21 @@ def handle (stream : String) (args : List String) : String :=
     match ch.toNat?, unhex data with
     | some ch, some d => hex (channelData ch d)
     | _, _ => "bad-args"
-  | "tcpframe", [data] =>
+  | "tcpwire", [data] =>
     match unhex data with
-    | some d => hex (tcpFrame d)
+    | some d => hex (tcpWire d)
+    | none => "bad-args"
+  | "tcpsplit", [data] =>
+    match unhex data with
+    | some d =>
+      let rec go (fuel : Nat) (st : Bytes) (acc : List String) : List String :=
+        match fuel with
+        | 0 => acc.reverse
+        | fuel + 1 => if st.isEmpty then acc.reverse else
+          match tcpNext st with
+          | some (m, rest) => go fuel rest (hex m :: acc)
+          | none => ("incomplete" :: acc).reverse
+      ",".intercalate (go (d.length + 1) d [])
     | none => "bad-args"
   | "nextch", [n] =>
     match n.toNat? with
@@ -296,6 +309,35 @@ def handle (stream : String) (args : List String) : String :=
       | .error .noScheme => "err noscheme" | .error .port => "err port" | .error .scheme => "err scheme"
       | .error .transport => "err transport" | .error .stunTransport => "err stuntransport"
     | none => "bad-hex"
+  | "candprio", [name, comp] =>
+    match comp.toNat? with
+    | some c => match constructorPriority name c with | some v => toString v | none => "bad-name"
+    | none => "bad-args"
+  | "pairorder", role :: prefer :: cands =>
+    -- cands: `L|R,id,prio,tcp,component,loopback,v4,passive,host,private`
+    let parseC (t : String) : Option (Bool × IcePairs.PCand) :=
+      match fields t with
+      | [side, id, pr, tcp, comp, lb, v4, pas, host, priv] => do
+        some (side = "L", ⟨← id.toNat?, ← pr.toNat?, tcp = "1", ← comp.toNat?, lb = "1", v4 = "1", pas = "1", host = "1", priv = "1"⟩)
+      | _ => none
+    let cs := cands.filterMap parseC
+    if cs.length ≠ cands.length then "bad-args" else
+    let locals := (cs.filter (·.1)).map (·.2)
+    let remotes := (cs.filter (fun c => !c.1)).map (·.2)
+    let r : IcePrio.Role := if role = "controlling" then .controlling else .controlled
+    let order := IcePairs.checkOrder r (prefer = "1") locals remotes
+    if order.isEmpty then "-" else ";".intercalate (order.map (fun p => s!"{p.1.id}>{p.2.id}"))
+  | "agentmsg", [kind, tx, lu, ru, rpw, role, prio, tie, nom] =>
+    match unhex tx, unhex lu, unhex ru, unhex rpw, prio.toNat?, tie.toNat? with
+    | some tx, some lu, some ru, some rpw, some prio, some tie =>
+      let r : IcePrio.Role := if role = "controlling" then .controlling else .controlled
+      match kind with
+      | "check" => hex (encode realPrims (IcePairs.connectivityCheck tx lu ru r prio tie (nom = "1")) (some rpw) true)
+      | "keepalive" => hex (encode realPrims (IcePairs.keepalive tx lu ru prio) (some rpw) true)
+      | "probe" => hex (encode realPrims (IcePairs.bareBinding tx) none true)
+      | "bare" => hex (encode realPrims (IcePairs.bareBinding tx) none false)
+      | _ => "bad-kind"
+    | _, _, _, _, _, _ => "bad-args"
   | "hash", [alg, a, b] =>
     match unhex a, unhex b with
     | some a, some b =>
